@@ -14,6 +14,7 @@
 #include "bitops.c"
 #include "rand.c"
 #include "rotenc.c"
+#include "regdump.c"
 #include <librfn/constexpr.h>
 #include <librfn/util.h>
 int32_t cyclecmp32(uint32_t a, uint32_t b);
@@ -210,6 +211,14 @@ int main(int argc, char **argv)
 		else if (!strcmp(op, "const_lssb")) printf("%d\n", rt_const_lssb(a));
 		/* the macro's value in its OWN expression type (no conversion to int): sign test and halving */
 		else if (!strcmp(op, "const_lssb_sign")) { uint64_t v_ = a; printf("%d %lld\n", const_lssb(v_) < 0 ? 1 : 0, (long long)(const_lssb(v_) / 2)); }
+		else if (!strcmp(op, "regdump")) {   /* the real fregdump on a one-field description: prints the field value it printed */
+			regdump_desc_t desc[3] = { { "REG", 0 }, { "FIELD", (uintreg_t)b }, { NULL, 0 } };
+			char *buf = NULL; size_t sz = 0; FILE *f = open_memstream(&buf, &sz);
+			fregdump(f, (uintreg_t)a, desc); fclose(f);
+			char *p = buf ? strstr(buf, ": 0x") : NULL;
+			if (p) { char *nl = strchr(p, '\n'); if (nl) *nl = 0; }
+			printf("%s\n", p ? p + 4 : "none"); free(buf);
+		}
 		else if (!strcmp(op, "rand31")) { uint32_t s = (uint32_t)a; uint32_t r = rand31_r(&s); printf("%u %u\n", r, s); }
 		else if (!strcmp(op, "rotenc")) {
 			rotenc_t r; memset(&r, 0, sizeof r);
